@@ -11,8 +11,9 @@ TRACE_TLA = os.path.join(SPEC, "Trace_Unmap.tla")
 _RE = re.compile(r'^(\d+)\s+(mmap|munmap|mremap|write)\((.*)\)\s+=\s+(\S+)')
 
 
-def strace_run(module, program, name, pkg="vmh", timeout=1800):
-    """Runs the executor under strace; returns (events, per-operation syscall lists)."""
+def strace_run(ctx, module, program, name, pkg="vmh", timeout=1800):
+    """Runs the executor under strace; returns (events, per-operation syscall lists).  If the code under test takes the
+    process down, that is a violation (recorded here) and the events up to that point are still judged."""
     exe = build_harness(pkg, False)
     prog_path = os.path.join(WORK, name + ".prog")
     out_path = os.path.join(WORK, name + ".ev.ndjson")
@@ -20,16 +21,32 @@ def strace_run(module, program, name, pkg="vmh", timeout=1800):
     with open(prog_path, "w") as f:
         for line in program:
             f.write(json.dumps(line, separators=(",", ":")) + "\n")
+    nlines = len(program)
     env = dict(os.environ, VMH_MARKERS="1")
     p = subprocess.run(["strace", "-f", "-e", "trace=mmap,munmap,mremap,write", "-o", st_path, exe, module, prog_path, out_path],
                        stdout=subprocess.PIPE, stderr=subprocess.PIPE, text=True, timeout=timeout, env=env)
+    events = []
+    if os.path.exists(out_path):
+        for l in open(out_path):
+            try:
+                events.append(json.loads(l))
+            except ValueError:
+                break
     if p.returncode != 0:
-        raise ToolError("executor under strace failed rc=%d: %s" % (p.returncode, p.stderr[-1500:]))
-    events = [json.loads(l) for l in open(out_path) if l.strip()]
+        if p.returncode in (2,) or "harness:" in p.stderr or len(events) >= len(program):
+            raise ToolError("executor under strace failed rc=%d: %s" % (p.returncode, p.stderr[-1500:]))
+        bad = program[len(events)]
+        sig = -p.returncode if p.returncode < 0 else p.returncode
+        log("[strace] the process died (%d) in %s %s" % (sig, bad.get("op"), json.dumps(bad.get("a"))[:200]))
+        ctx.mismatch({"module": module, "tag": "crash", "op": bad.get("op"), "a": bad.get("a"),
+                      "r": {"k": "signal", "sig": sig, "msg": "the process running the library died (%d)" % sig}},
+                     {"module": module, "pkg": pkg, "program": program[max(0, len(events) - 20):len(events) + 1],
+                      "expected": "the call returns", "observed": "process died (%d)" % sig})
+        program = program[:len(events)]
     if len(events) != len(program):
         raise ToolError("executor under strace returned %d events for %d lines" % (len(events), len(program)))
     ids = {}
-    per_op = [[] for _ in range(len(program) + 1)]
+    per_op = [[] for _ in range(nlines + 2)]
     cur = 0
     main_pid = None
     for line in open(st_path, errors="replace"):
@@ -65,7 +82,7 @@ def strace_run(module, program, name, pkg="vmh", timeout=1800):
                 continue
             addr = int(args.split(",")[0], 16)
             per_op[cur].append(["munmap", ids.setdefault(addr, len(ids) + 1), 0])
-    return events, per_op
+    return events, per_op[:len(events) + 1]
 
 
 def judge(ctx, name, events, per_op):
@@ -91,7 +108,7 @@ def run(ctx):
     prog = []
     for _ in range(nh):
         prog += m_own.rnd_history(ctx.rnd, 30)
-    events, per_op = strace_run("own", prog, "unmap_own_" + ctx.pid)
+    events, per_op = strace_run(ctx, "own", prog, "unmap_own_" + ctx.pid)
     judge(ctx, "unmap_own_" + ctx.pid, events, per_op)
     n_sys = sum(len(x) for x in per_op)
     # Xen build: every accepted construction, dropped again (unix, foreign, grant, on-demand grant)
@@ -101,10 +118,10 @@ def run(ctx):
             for rep in range(2 if ctx.tier == "quick" else 10):
                 prog.append({"op": "from_range", "a": {"mflags": mflags, "file": True, "size": size, "flen": 8192 + 4096, "foff": 0, "fixed": False,
                                                        "fail": "", "base": 0, "defaults": rep % 2 == 0, "badflags": False}})
-    events, per_op = strace_run("xctor", prog, "unmap_xctor_" + ctx.pid, pkg="vmh-xen")
+    events, per_op = strace_run(ctx, "xctor", prog, "unmap_xctor_" + ctx.pid, pkg="vmh-xen")
     judge(ctx, "unmap_xctor_" + ctx.pid, events, per_op)
     bad = [e for e in events if e["r"].get("k") != "ok"]
-    if bad:
+    if bad and not ctx.violations:
         raise ToolError("a construction that should be accepted was refused under strace: %s" % json.dumps(bad[0])[:300])
     n_sys += sum(len(x) for x in per_op)
     ctx.cov["syscalls_attributed"] = n_sys
